@@ -2,6 +2,7 @@
 PROPERTIES = {
     "C01": ["contracts.c01"],
     "C16": ["contracts.c16"],
+    "C02": ["contracts.c02"],
     "C09": ["contracts.c09"],
     "C17": ["contracts.c17"],
     "C12": ["contracts.c12"],
